@@ -2,35 +2,45 @@
 
     New API: [Renderable.draw] / [_animate_] ([_renderable.py:475-591,698-813]) and
     [_init_render_]'s size validation ([_renderable.py:1112-1142]).
-    Old API: [BaseImage.draw] / [_display_animated] ([common.py:631-795,1318-1365]) with
-    [ITerm2Image._display_animated]'s wezterm pre-erase ([iterm2.py:521-547]) and
-    [_renderer]'s size validation ([common.py:1683-1716]).
+    Old API: [BaseImage.draw] / [_display_animated] ([common.py:631-795,1323-1371]) with
+    [ITerm2Image._display_animated]'s wezterm pre-erase ([iterm2.py:521-549]),
+    [KittyImage._display_animated] / [_clear_frame] ([kitty.py:357-377]) and [_renderer]'s
+    size validation ([common.py:1690-1723]).
 
     A frame is the token list of its render output; the streams are functions of the
-    frames, the padding margins and the flags. *)
+    frames, the padding margins [(left, top, right, bottom)] and the flags. *)
 From Coq Require Import List ZArith Bool Lia.
 Import ListNotations.
 From TI Require Import lib.Term lib.TermFacts lib.Lines model.Padding.
 Open Scope Z_scope.
 
-(** [ctlseqs.cursor_up / cursor_down / cursor_forward]: empty when [n <= 0] *)
+(** [_ctlseqs.cursor_up / cursor_down / cursor_forward]: empty when [n <= 0] *)
 Definition cuu (n : Z) : list tok := if 0 <? n then [TCuu n] else [].
 Definition cud (n : Z) : list tok := if 0 <? n then [TCud n] else [].
 Definition cuf (n : Z) : list tok := fillseg None n.
 
+Definition opt (b : bool) (x : tok) : list tok := if b then [x] else [].
+
 (** ** new API *)
 
-(** [draw()] of a still frame, [R] = the (padded, when the gate says so) render output *)
-Definition still_stream (hide : bool) (R : list tok) : list tok :=
-  (if hide then [THide] else []) ++ R ++ [TLF] ++ (if hide then [TShow] else []).
+(** [frame.render_output if frame.render_size == padded_size else padding.pad(...)]
+    ([_renderable.py:566-571], [_iterator.py:614-620]) *)
+Definition padded (fill : option glyph) (d : Z * Z * Z * Z) (w h : Z) (F : list tok) : list tok :=
+  if pad_gate d w h then pad fill d w F else F.
 
-(** one later frame of an animation: drawn from the render's top-left with every line
-    feed followed by [cursor_forward(pad_left)], then back to the top-left *)
+(** [draw()] of a still frame: [HIDE? render "\n" SHOW?] *)
+Definition still_stream (hide : bool) (R : list tok) : list tok :=
+  opt hide THide ++ R ++ [TLF] ++ opt hide TShow.
+
+(** one later frame of an animation ([_renderable.py:783-797]): [_clear_frame_], the frame
+    with every line feed followed by [cursor_forward(pad_left)], then back to the render's
+    top-left: ["\r" cursor_up(height - 1) cursor_forward(pad_left)] *)
 Definition later_frame (l h : Z) (clear F : list tok) : list tok :=
   clear ++ subst_lf [] (cuf l) F ++ [TCR] ++ cuu (h - 1) ++ cuf l.
 
-(** [_animate_]: the padded first frame [P], then the later frames [Fs], finally down to
-    the last line of the padded box *)
+(** [_animate_]: the padded first frame [P], up to the render's top-left
+    (["\r" cursor_up(height + pad_bottom - 1) cursor_forward(pad_left)]), the later frames,
+    finally [cursor_down(height + pad_bottom - 1)] *)
 Definition anim_body (l b h : Z) (clear P : list tok) (Fs : list (list tok)) : list tok :=
   P ++ [TCR] ++ cuu (h + b - 1) ++ cuf l
     ++ concat (map (later_frame l h clear) Fs)
@@ -38,8 +48,11 @@ Definition anim_body (l b h : Z) (clear P : list tok) (Fs : list (list tok)) : l
 
 Definition anim_stream (hide : bool) (l b h : Z) (clear P : list tok) (Fs : list (list tok))
   : list tok :=
-  (if hide then [THide] else []) ++ anim_body l b h clear P Fs ++ [TLF]
-  ++ (if hide then [TShow] else []).
+  opt hide THide ++ anim_body l b h clear P Fs ++ [TLF] ++ opt hide TShow.
+
+(** the frames an animation goes through: [loops] times over the frames (the cache only
+    decides whether a frame is rendered again, not what is yielded: C09) *)
+Definition looped {A} (loops : nat) (frames : list A) : list A := rep loops frames.
 
 (** [_init_render_]'s validation as [draw()] calls it: [check_size := animation or
     check_size], [allow_scroll := not animation and allow_scroll]; [true] = accepted *)
@@ -56,40 +69,85 @@ Definition doc_fits (check_size allow_scroll animation : bool) (pw ph tw th : Z)
   (check_size = true \/ animation = true) ->
   pw <= tw /\ ((allow_scroll = false \/ animation = true) -> ph <= th).
 
-(** the whole of [draw()]: nothing is written when validation rejects *)
-Definition draw_stream (check_size allow_scroll animation hide : bool) (pw ph tw th : Z)
-           (l b h : Z) (clear P : list tok) (Fs : list (list tok)) : option (list tok) :=
+(** the whole of [draw()]: [None] = [RenderSizeOutofRangeError] raised by [_init_render_],
+    before anything is written.  [frames]: the current frame alone for a still draw, the
+    frames yielded by the render iterator for an animation. *)
+Definition draw_stream (check_size allow_scroll animation hide : bool) (tw th : Z)
+           (fill : option glyph) (d : Z * Z * Z * Z) (w h : Z) (clear : list tok)
+           (frames : list (list tok)) : option (list tok) :=
+  let '(pw, ph) := padded_size d w h in
+  let '(l, _, _, b) := d in
   if size_ok check_size allow_scroll animation pw ph tw th then
-    Some (if animation then anim_stream hide l b h clear P Fs else still_stream hide P)
+    Some match frames with
+         | [] => opt hide THide ++ [TLF] ++ opt hide TShow     (* no frame at all *)
+         | F1 :: Fs =>
+           if animation then anim_stream hide l b h clear (padded fill d w h F1) Fs
+           else still_stream hide (padded fill d w h F1)
+         end
   else None.
 
 (** ** old API *)
 
-(** [print(formatted render) ... finally: print(SGR_DEFAULT, SHOW_CURSOR * isatty)] *)
+(** [HIDE? formatted-render] then, from [finally], [print(SGR_DEFAULT, SHOW?)] *)
 Definition old_still_stream (tty : bool) (R : list tok) : list tok :=
-  (if tty then [THide] else []) ++ R ++ [TSgr0] ++ (if tty then [TShow] else []) ++ [TLF].
+  opt tty THide ++ R ++ [TSgr0] ++ opt tty TShow ++ [TLF].
 
-(** [_display_animated]: every frame is printed padded, from the top of the padded box:
-    ["\r", cursor_up, frame]; [pre] is the wezterm pre-erase of the iterm2 style (or
-    empty); [clear] what [_clear_frame()] writes (kitty <= 0.25: delete by z-index) *)
-Definition old_later_frame (lines : Z) (clear F : list tok) : list tok :=
-  clear ++ [TCR] ++ cuu (lines - 1) ++ F.
+(** [_display_animated]: every frame is printed formatted (padded with spaces to the
+    [lines]-line box) from the top of the box and followed by ["\r" cursor_up(lines - 1)];
+    [clear] is what [_clear_frame()] writes (kitty <= 0.25.0: delete by z-index, else
+    nothing); finally [cursor_down(lines - 1)] *)
+Definition old_frame (lines : Z) (P : list tok) : list tok := P ++ [TCR] ++ cuu (lines - 1).
 
-Definition old_anim_stream (tty : bool) (lines : Z) (pre clear F1 : list tok)
-           (Fs : list (list tok)) : list tok :=
-  (if tty then [THide] else []) ++ pre ++ F1
-  ++ concat (map (old_later_frame lines clear) Fs)
-  ++ [TSgr0] ++ (if tty then [TShow] else []) ++ [TLF].
+Definition old_anim_body (lines : Z) (pre clear P1 : list tok) (Ps : list (list tok)) : list tok :=
+  pre ++ old_frame lines P1
+  ++ concat (map (fun P => clear ++ old_frame lines P) Ps)
+  ++ cud (lines - 1).
 
-(** iterm2 on wezterm, [mix = False]: erase the padded box first, then back to its top *)
-Definition wez_pre (lines : Z) (E : list tok) : list tok := E ++ [TCR] ++ cuu (lines - 1).
+Definition old_anim_stream (tty : bool) (lines : Z) (pre clear P1 : list tok)
+           (Ps : list (list tok)) : list tok :=
+  opt tty THide ++ old_anim_body lines pre clear P1 Ps ++ [TSgr0] ++ opt tty TShow ++ [TLF].
 
-(** [_renderer]'s validation ([common.py:1683-1716]): with [check_size] (or an animation)
-    the render size must fit the terminal width, and unless scrolling is allowed (never
-    for animations) the terminal height; [BaseImage.draw] additionally requires
-    [pad_width <= terminal_width] and, for animations, [pad_height <= terminal_height] *)
-Definition old_size_ok (check_size scroll animation : bool) (w h padw padh tw th : Z) : bool :=
-  negb (tw <? padw)
-  && negb (animation && (th <? padh))
-  && negb ((check_size || animation)
-           && ((tw <? w) || (negb (scroll && negb animation) && (th <? h)))).
+(** iterm2 on wezterm, [mix = False]: [rendered_height] lines of [ERASE_CHARS CURSOR_FORWARD]
+    formatted like a frame, then back to the top of the box *)
+Definition wez_erase_ls (w h : Z) : list (list tok) := repeat [TEch w; TCuf w] (Z.to_nat h).
+Definition wez_pre (W H : Z) (ha va : nat) (w h : Z) : list tok :=
+  old_frame (Z.max H h) (format_render W H ha va w h (joinlf (wez_erase_ls w h))).
+
+(** kitty's [_clear_frame] *)
+Definition kitty_clear (old_kitty : bool) : list tok :=
+  if old_kitty then [TKittyDel (DelZ (- 2147483648))] else [].
+
+(** [BaseImage.draw]'s and [_renderer]'s validation.  [rawW rawH]: the [pad_width] /
+    [pad_height] arguments as given; [dynamic]: the image's size is not set (it is
+    recomputed for the terminal, no validation); [true] = accepted *)
+Definition old_size_ok (check_size scroll animation dynamic : bool) (w h rawW rawH tw th : Z) : bool :=
+  negb (tw <? rawW)
+  && negb (animation && (th <? rawH))
+  && (dynamic
+      || negb ((check_size || animation)
+               && ((tw <? w) || (negb scroll && (th <? h)) || (animation && (th <? h))))).
+
+(** the documented rules ([draw]'s docstring): padding width always validated; padding
+    height validated for animations; for a set size: with [check_size] (always for
+    animations) the rendered width must fit and, unless [scroll] (ignored for animations),
+    the rendered height *)
+Definition old_doc_fits (check_size scroll animation dynamic : bool) (w h rawW rawH tw th : Z) : Prop :=
+  rawW <= tw
+  /\ (animation = true -> rawH <= th)
+  /\ (dynamic = false -> (check_size = true \/ animation = true) ->
+      w <= tw /\ ((scroll = false \/ animation = true) -> h <= th)).
+
+(** the whole of [BaseImage.draw]; the frames are the unformatted renders *)
+Definition old_draw_stream (check_size scroll animation dynamic tty : bool) (tw th : Z)
+           (rawW rawH : Z) (ha va : nat) (w h : Z) (pre clear : list tok)
+           (frames : list (list tok)) : option (list tok) :=
+  if old_size_ok check_size scroll animation dynamic w h rawW rawH tw th then
+    let '(W, H) := old_resolve tw th rawW rawH in
+    let fmt := format_render W H ha va w h in
+    Some match frames with
+         | [] => opt tty THide ++ [TSgr0] ++ opt tty TShow ++ [TLF]
+         | F1 :: Fs =>
+           if animation then old_anim_stream tty (Z.max H h) pre clear (fmt F1) (map fmt Fs)
+           else old_still_stream tty (fmt F1)
+         end
+  else None.
